@@ -317,6 +317,34 @@ impl<P: Package, VS: VersionSet, M: Eq + Clone + Debug + Display> Incompatibilit
     }
 }
 
+#[cfg(pubgrub_verif)]
+impl<P: Package, VS: VersionSet, M: Eq + Clone + Debug + Display> Incompatibility<P, VS, M> {
+    /// Read-only rendering for the verification hook: the terms as (package, is_positive, set),
+    /// a tag for the kind, and the two cause ids of a derived incompatibility.
+    pub(crate) fn verif_render(&self) -> crate::verif_store::Entry {
+        let terms = self
+            .package_terms
+            .iter()
+            .map(|(p, t)| match t {
+                Term::Positive(s) => (p.to_string(), true, s.to_string()),
+                Term::Negative(s) => (p.to_string(), false, s.to_string()),
+            })
+            .collect();
+        let (kind, causes) = match &self.kind {
+            Kind::NotRoot(_, _) => ("notroot", None),
+            Kind::NoVersions(_, _) => ("nov", None),
+            Kind::FromDependencyOf(_, _, _, _) => ("dep", None),
+            Kind::DerivedFrom(a, b) => ("der", Some((a.into_raw(), b.into_raw()))),
+            Kind::Custom(_, _, _) => ("custom", None),
+        };
+        crate::verif_store::Entry {
+            terms,
+            kind,
+            causes,
+        }
+    }
+}
+
 impl<'a, P: Package, VS: VersionSet + 'a, M: Eq + Clone + Debug + Display + 'a>
     Incompatibility<P, VS, M>
 {
